@@ -120,8 +120,17 @@ def oracle_m(c, out):
         return "no result (%s)" % out[:80]
     count, items, index, string = r
     F = fetchable(c.chunks)
-    k = len(index)
-    if k > len(F) or index != [(i, l) for (i, _, l) in F[:k]]:
+    # the index must list missing chunks in file order with their stored sizes; the ones that
+    # have bytes must be a prefix of all missing chunks that have bytes (an entry for a missing
+    # chunk without bytes is neither required nor forbidden by the property)
+    last = -1
+    for (num, size) in index:
+        if num <= last or num >= len(c.chunks) or c.chunks[num][2] != 0 or c.chunks[num][1] != size:
+            return "range index entry %d:%d is not a missing chunk with that stored size, in file order (index %s)" % (num, size, index[:6])
+        last = num
+    withbytes = [e for e in index if e[1] > 0]
+    k = len(withbytes)
+    if k > len(F) or withbytes != [(i, l) for (i, _, l) in F[:k]]:
         return "range index %s is not a prefix of the missing chunks %s" % (index[:6], [(i, l) for (i, _, l) in F[:6]])
     want = merged(c.hdr, F[:k])
     if items != want:
@@ -260,10 +269,20 @@ def gen_cases(tier, rng):
         chunks = [(rng.choice([0, 5, 10, 10, 20, 30, 40, rng.randrange(0, 60)]), rng.choice([0, 1, 5, 10, 10, 11, 20, rng.randrange(0, 40)]),
                    rng.choice([0, 0, 0, 1])) for _ in range(n)]
         cases.append(t_case(hdr, rng.choice(LIMITS), chunks))
+    # size_t wrap-around in range_add (start + header, end) - correspondence only
+    for _ in range(300 if tier == "quick" else 3000):
+        n = rng.randrange(1, 5)
+        hdr = rng.choice([1, 50, 100])
+        chunks = [(rng.choice([0, 10, U64 - 120, U64 - 100, U64 - 60, U64 - 50, U64 - 1]), rng.choice([1, 10, 49, 50, 51, 100, 200]),
+                   rng.choice([0, 0, 0, 1])) for _ in range(n)]
+        cases.append(t_case(hdr, rng.choice(LIMITS), chunks))
     # ---- buffer edges: the text reaches exactly 32768 / 49152 / 73728 (+-1) after an item
     targets = [s + d for s in (32768, 49152, 73728) for d in (-1, 0, 1)]
     for tg in targets:
-        for rep in range(1 if tier == "quick" else 4):
+        # the model replays the quadratic list walk: the quick tier takes the three tables around
+        # 32768 and the exact hits of 49152 and 73728, the thorough tier all nine, four times
+        reps = 4 if tier == "thorough" else (1 if tg in (32767, 32768, 32769, 49152, 73728) else 0)
+        for rep in range(reps):
             hdr, lens, valids = edge_table(rng, tg)
             cases.append(m_case(hdr, -1, lens, valids, key="c10:edge-table:%d:seed%d:rep%d" % (tg, vlib.seed(), rep)))
         cases.append(c_case(edge_list(tg), key="c10:edge-list:%d" % tg))
@@ -281,7 +300,7 @@ def gen_cases(tier, rng):
     for s, e in [(0, 0), (0, 100), (5, U64 - 1), (U64 - 1, 0), (12345678901234567890, 12345678901234567891)]:
         cases.append(g_case(s, e))
     # ---- large tables
-    big = [(20000, 0.5)] if tier == "quick" else [(20000, 0.5), (20000, 0.9), (20000, 0.1), (15000, 0.5), (20000, 0.5)]
+    big = [(8000, 0.5)] if tier == "quick" else [(20000, 0.5), (20000, 0.9), (20000, 0.1), (15000, 0.5), (20000, 0.5)]
     for bi, (n, p) in enumerate(big):
         hdr = rng.choice([313, 10 ** 6, 10 ** 12])
         lens = [rng.choice([0, 1, rng.randrange(1, 70000)]) if rng.random() < 0.05 else rng.randrange(1, 70000) for _ in range(n)]
@@ -289,9 +308,26 @@ def gen_cases(tier, rng):
         for lim in ([-1, 255] if tier == "quick" else [-1, 255, 127, 7]):
             cases.append(m_case(hdr, lim, lens, valids, key="c10:big-table:%d:seed%d:lim%d" % (bi, vlib.seed(), lim)))
     # alternating: every missing chunk its own range (the most ranges a table can give)
-    n = 20000 if tier == "thorough" else 8000
+    n = 20000 if tier == "thorough" else 4000
     cases.append(m_case(1000, -1, [100] * n, [i % 2 for i in range(n)], key="c10:alternating:%d" % n))
     return cases
+
+
+def case_from_line(line, key=None):
+    toks = line.split()
+    k = toks[0]
+    if key and not key.startswith("c10:"):
+        key = "c10:" + key.split(":", 1)[1] if ":" in key else None
+    if k == "M":
+        n = int(toks[3])
+        return m_case(int(toks[1]), int(toks[2]), [int(x) for x in toks[4:4 + 2 * n:2]], [int(x) for x in toks[5:5 + 2 * n:2]], key=key)
+    if k == "T":
+        n = int(toks[3])
+        return t_case(int(toks[1]), int(toks[2]), [(int(toks[4 + 3 * i]), int(toks[5 + 3 * i]), int(toks[6 + 3 * i])) for i in range(n)])
+    if k == "C":
+        n = int(toks[1])
+        return c_case([(int(toks[2 + 2 * i]), int(toks[3 + 2 * i])) for i in range(n)], key=key)
+    return g_case(int(toks[1]), int(toks[2]))
 
 
 # ---------------------------------------------------------------- running
@@ -300,7 +336,7 @@ def run_resilient(exe, lines, wd, tag):
     the cases behind it are run in a new process"""
     out, errs, rounds = [], "", 0
     todo = list(lines)
-    while todo and rounds < 60:
+    while todo and rounds < 4000:
         o, err = vlib.run_cases(exe, todo, wd, "%s%d" % (tag, rounds))
         rounds += 1
         n_done = len(o)
@@ -325,23 +361,11 @@ def run(res, tier, only_case=None):
                 "4000 x 42 characters; tables with arbitrary starts for the general insertion walk (correspondence only). "
                 "non-trivial = distinct (table, vector, limit) with at least two missing chunks that have bytes")
     if only_case is not None:
-        line = only_case["case"]["line"]
-        k = line.split(" ", 1)[0]
-        toks = line.split()
-        if k == "M":
-            n = int(toks[3])
-            cases = [m_case(int(toks[1]), int(toks[2]), [int(x) for x in toks[4:4 + 2 * n:2]], [int(x) for x in toks[5:5 + 2 * n:2]],
-                            key=only_case.get("key"))]
-        elif k == "T":
-            n = int(toks[3])
-            cases = [t_case(int(toks[1]), int(toks[2]), [(int(toks[4 + 3 * i]), int(toks[5 + 3 * i]), int(toks[6 + 3 * i])) for i in range(n)])]
-        elif k == "C":
-            n = int(toks[1])
-            cases = [c_case([(int(toks[2 + 2 * i]), int(toks[3 + 2 * i])) for i in range(n)], key=only_case.get("key"))]
-        else:
-            cases = [g_case(int(toks[1]), int(toks[2]))]
+        cases = [case_from_line(only_case["case"]["line"], only_case.get("key"))]
     else:
-        cases = gen_cases(tier, rng)
+        cp = vlib.os.path.join(vlib.VERIF, "corpus", "c10.txt")
+        corpus = [l.strip() for l in open(cp)] if vlib.os.path.exists(cp) else []
+        cases = [case_from_line(l) for l in corpus if l and not l.startswith("#")] + gen_cases(tier, rng)
     model = vlib.ensure_model("C10")
     impl = vlib.ensure_harness("zh_c10", "plain")
     impl_asan = vlib.ensure_harness("zh_c10", "asan")
